@@ -1,4 +1,4 @@
-//! hldump: stdin = ndjson {"text": ..}; stdout = ndjson {"text": .., "hl": [[start, end, tag], ..]}: the analysis' highlight
+//! hldump: stdin = ndjson {"text": .., ["lib": text of m2 | null]}; stdout = ndjson {"text": .., "hl": [[start, end, tag], ..]}: the analysis' highlight
 //! list for the text as module `m1` of a package that also holds the library module m2 (single package).
 use serde_json::{json, Value};
 use std::io::BufRead;
@@ -10,7 +10,12 @@ fn main() {
         if line.trim().is_empty() { continue; }
         let v: Value = serde_json::from_str(&line).unwrap();
         let text = v["text"].as_str().unwrap();
-        let ws = verif_harness::workspace::single_package(&[("m1", text), (LIBS[0].0, LIBS[0].1)]);
+        // "lib": the text of the library module m2 (default: the fixed one); null: no such module
+        let ws = match v.get("lib") {
+            Some(Value::Null) => verif_harness::workspace::single_package(&[("m1", text)]),
+            Some(Value::String(l)) => verif_harness::workspace::single_package(&[("m1", text), (LIBS[0].0, l.as_str())]),
+            _ => verif_harness::workspace::single_package(&[("m1", text), (LIBS[0].0, LIBS[0].1)]),
+        };
         let a = ws.host.snapshot();
         let hl = a.syntax_highlight(ide::FileId(0), None).unwrap();
         println!("{}", json!({"text": text, "hl": hl.iter().map(|h| json!([u32::from(h.range.start()), u32::from(h.range.end()), format!("{:?}", h.tag)])).collect::<Vec<_>>()}));
